@@ -1,13 +1,14 @@
 (* C19 -- equality, ordering and hashing coincide with mathematical identity.
-   Only statements here; proofs are in coq/C19/{OrdProofs,PointProofs,TorsionProofs}.v.
+   Only statements here; proofs are in coq/C19/{OrdProofs,PointProofs,TorsionProofs,PolyProofs}.v.
 
    Conventions: an Fp element is its stored Montgomery limb vector [a]; [fp_valid m a] is the
    invariant of every stored element (wf, N limbs, val a < p -- preserved by all operations, C01);
    [std m a] = val (into_bigint m a) is the canonical integer it denotes.  A hasher is an arbitrary
    function [h] of the structure a type feeds to it ([*_hash_key]). *)
 From V Require Import Base.Word Base.Field C15.BigIntModel C01.MontModel C01.MontProofs
-  C03.CurveExec C03.FieldHyp C03.TEProofs
-  C19.OrdModel C19.Exprs C19.OrdProofs C19.PointProofs C19.TorsionProofs C19.Examples.
+  C03.CurveExec C03.FieldHyp C03.TEProofs C08.Model C08.Common
+  C19.OrdModel C19.Exprs C19.PolyExprs C19.OrdProofs C19.PointProofs C19.TorsionProofs C19.PolyProofs C19.Examples.
+Require Import Coq.setoid_ring.Field_theory.
 
 (* ================= prime fields ================= *)
 
@@ -361,3 +362,41 @@ Proof. exact ex_canonical. Qed.
 Example C19_sparse_example : sparse_canonical 0 0 [(0, 1); (3, 5)] /\
   sparse_of_dense (Z.eqb 0) 0 [1; 0; 0; 5] = [(0, 1); (3, 5)].
 Proof. exact ex_sparse. Qed.
+
+(* Operator results are stored canonically.  [oks F res f] / [okd F res f] (coq/C08/Common.v) = "res = ROk v, v
+   canonical, v evaluates to f"; coq/Props/C08.v proves it for sparse + += -= +=(f,q) neg mul scale, both conversions,
+   dense + += -= +=(f,q) neg * naive_mul, dense/sparse mixed operators, division and interpolation on canonical
+   operands.  [r] is any coefficient encoding that sends only 0 to z (for Fp: the Montgomery limb vector).  Hence
+   C19_poly_eq_iff_same_poly / C19_sparse_eq_iff_same_poly apply to every pair of operator results: `==` (and the
+   hash) on them is identity of the coefficient functions. *)
+Theorem C19_sparse_result_canonical : forall (K : Type) (F : Fops K) (T : Type) (z : T) (r : K -> T),
+  (forall c, c <> f0 F -> r c <> z) ->
+  forall (res : Model.res (list (nat * K))) (f : K -> K), oks F res f ->
+  exists v, res = ROk v /\ sparse_canonical z 0 (stored_sparse r v).
+Proof. exact @sparse_result_canonical. Qed.
+
+Theorem C19_dense_result_canonical : forall (K : Type) (F : Fops K) (T : Type) (z : T) (r : K -> T),
+  r (f0 F) = z -> (forall c, c <> f0 F -> r c <> z) ->
+  forall (res : Model.res (list K)) (f : K -> K), okd F res f ->
+  exists v, res = ROk v /\ dense_canonical z (stored_dense r v).
+Proof. exact @dense_result_canonical. Qed.
+
+(* `a -= &b` on canonical sparse operands never panics and stores no zero coefficient, no unsorted / repeated degree *)
+Theorem C19_sparse_sub_assign_canonical : forall (K : Type) (F : Fops K),
+  field_theory (f0 F) (f1 F) (fadd F) (fmul F) (fsub F) (fneg F) (fun a b => fmul F a (finv F b)) (finv F) eq ->
+  (forall a b, feqb F a b = true <-> a = b) ->
+  forall (T : Type) (z : T) (r : K -> T), (forall c, c <> f0 F -> r c <> z) ->
+  forall a b, scanon F a -> scanon F b ->
+  exists v, s_sub_assign F a b = ROk v /\ sparse_canonical z 0 (stored_sparse r v).
+Proof. exact @sparse_sub_assign_canonical. Qed.
+
+(* `p -= &p` is the empty term list, i.e. structurally SparsePolynomial::zero() *)
+Theorem C19_sparse_sub_self_zero : forall (K : Type) (F : Fops K),
+  field_theory (f0 F) (f1 F) (fadd F) (fmul F) (fsub F) (fneg F) (fun a b => fmul F a (finv F b)) (finv F) eq ->
+  (forall a b, feqb F a b = true <-> a = b) ->
+  forall a, scanon F a -> s_sub_assign F a a = ROk [].
+Proof. exact @sparse_sub_self_zero. Qed.
+
+Example C19_poly_results_example : scanon QcOps [(1%nat, q 2); (3%nat, q 5)] /\ Common.canon QcOps [q 2; q 0; q 5] /\
+  (forall c, c <> f0 QcOps -> (fun x => x) c <> f0 QcOps).
+Proof. exact ex_scanon. Qed.
